@@ -715,6 +715,9 @@ func RunC19Shredding(ctx *core.Ctx) {
 				if i%2 == 0 {
 					c19NestedCases(ctx, r, &p) // the variant group below repeated / optional ancestors
 				}
+				if i%4 == 1 {
+					c19LayoutCase(ctx, r) // small pages and dictionaries, several row groups, cursor reader
+				}
 				if len(p.reqs) >= 1000 {
 					p.flush(ctx, d)
 				}
@@ -902,6 +905,9 @@ func c19ShredCase(ctx *core.Ctx, r *rand.Rand, p *c19Pending, sample bool) {
 				}
 			}
 		}
+		// ---- L1: the columnar VariantReader and conversion through evolved reader schemas
+		c19CheckCursor(ctx, data, want, []int{1, 3, 1000}[r.Intn(3)], wp.name+"->cursor schema="+s.kind, detail)
+		c19CheckEvolved(ctx, data, want, wp.name+" schema="+s.kind, detail)
 		// ---- L2: which leaf column holds what, against the mirror of the shredding writer
 		colValues, err := c19ColumnValues(data)
 		if err != nil {
